@@ -25,7 +25,7 @@ import ast
 from contextlib import contextmanager
 
 from .. import termflow
-from ..astutil import ancestors, kwarg, parents, u
+from ..astutil import ancestors, call_name, calls, kwarg, parents, u
 from ..formula import extract, same, same_events, spec
 from ..model import AnalysisError
 from ..termflow import ADict, AList, ATuple, Poly, _const_of_key, _is_polykey, equivalent, key_atom, poly_from_key, show, vkey
@@ -932,6 +932,7 @@ def _root_index(val, root_node):
 def rule_X5(ctx, info):
     prog = ctx.prog
     ctx.rule("X5", "outputs: ccf = idx/(grid-1) (grid from axis 1), clonal_prev = ccf - sum(children ccf) without writing through, whole pipeline on one graph, virtual root deleted from both dictionaries, consumer order", 8)
+    _closure_subtracted(ctx)
     # ---- ccf
     f = prog.fn(MAP + "get_map_ccfs")
     Q = f.qualname
@@ -983,6 +984,43 @@ def rule_X5(ctx, info):
     # ---- pipeline
     _pipeline(ctx, info)
     _consumer(ctx, info)
+
+
+_CLOSURES = {"networkx.descendants", "networkx.ancestors", "networkx.dfs_preorder_nodes", "networkx.dfs_postorder_nodes", "networkx.bfs_tree", "networkx.dfs_tree", "networkx.dfs_successors", "networkx.bfs_successors", "networkx.descendants_at_distance", "rustworkx.descendants", "rustworkx.ancestors"}
+
+
+def _closure_subtracted(ctx):
+    """The clonal prevalence of a clone is its CCF less the CCFs of its *children*: a subtraction that ranges over a
+    transitive closure of the graph (descendants, a traversal) takes the grandchildren off twice."""
+    prog = ctx.prog
+    mod = prog.module("phyclone.process_trace.map")
+    for fi in prog.functions.values():
+        if fi.module is not mod:
+            continue
+        pm = None
+        for c in calls(fi.node):
+            nm = call_name(c)
+            root, _, rest = nm.partition(".")
+            tgt = mod.imports.get(root)
+            full = (tgt + ("." + rest if rest else "")) if isinstance(tgt, str) else nm
+            if full not in _CLOSURES:
+                continue
+            if pm is None:
+                pm = {id(ch): par for par in ast.walk(fi.node) for ch in ast.iter_child_nodes(par)}
+            cur, hit = c, None
+            while cur is not None and cur is not fi.node:
+                par = pm.get(id(cur))
+                if isinstance(par, ast.BinOp) and isinstance(par.op, ast.Sub) and par.right is cur:
+                    hit = par
+                elif isinstance(par, ast.AugAssign) and isinstance(par.op, ast.Sub) and par.value is cur:
+                    hit = par
+                elif isinstance(par, ast.For) and par.iter is cur and any(isinstance(n, ast.AugAssign) and isinstance(n.op, ast.Sub) for b in par.body for n in ast.walk(b)):
+                    hit = par
+                if hit is not None:
+                    break
+                cur = par
+            if hit is not None:
+                ctx.fail("X5", "clonal prevalence subtracts the children's CCFs only", fi.where(c), "`%s` takes the CCF of every node of %s off the clone's own: the clones nested two levels down are subtracted from their grandparent as well as from their parent" % (u(hit)[:100], u(c)[:60]), construct=fi.qualname, stmt="closure subtracted")
 
 
 def _out_given(f):
@@ -1345,6 +1383,12 @@ SELFTEST = [
         {"file": _M, "old": "def get_map_ccfs(graph, node, result):", "new": "def _candidate(c, p, tot, k):\n    return p[tot - k] + c[k]\n\n\ndef get_map_ccfs(graph, node, result):"}]},
     {"name": "benign-print-in-traceback", "kind": "benign", "file": _M, "old": "        child = children[i]\n", "new": "        child = children[i]\n        print(\"tracing\", child)\n"},
     {"name": "benign-reversed-range", "kind": "benign", "file": _M, "old": "for i in range(len(children) - 1, -1, -1):", "new": "for i in reversed(range(len(children))):"},
+    {"name": "X5-clonal-prev-less-all-descendants", "kind": "break", "rule": "X5", "edits": [
+        {"file": _M, "old": "import numpy as np\n", "new": "import networkx as nx\nimport numpy as np\n"},
+        {"file": _M, "old": "    clonal_prev = ccf_dict[node].copy()\n\n    for child in tree.successors(node):\n        clonal_prev -= ccf_dict[child]\n\n        get_map_clonal_prev", "new": "    clonal_prev = ccf_dict[node] - sum(ccf_dict[c] for c in nx.descendants(tree, node))\n\n    for child in tree.successors(node):\n        get_map_clonal_prev"}]},
+    {"name": "benign-descendants-counted-not-subtracted", "kind": "benign", "edits": [
+        {"file": _M, "old": "import numpy as np\n", "new": "import networkx as nx\nimport numpy as np\n"},
+        {"file": _M, "old": "    clonal_prev = ccf_dict[node].copy()\n", "new": "    clonal_prev = ccf_dict[node].copy()\n    assert len(nx.descendants(tree, node)) <= len(ccf_dict) - 1\n"}]},
     {"name": "benign-clonal-prev-as-sum", "kind": "benign", "file": _M, "old": "    clonal_prev = ccf_dict[node].copy()\n\n    for child in tree.successors(node):\n        clonal_prev -= ccf_dict[child]\n\n        get_map_clonal_prev", "new": "    clonal_prev = ccf_dict[node] - sum(ccf_dict[c] for c in tree.successors(node))\n\n    for child in tree.successors(node):\n        get_map_clonal_prev"},
     {"name": "benign-pop-root", "kind": "benign", "file": _M, "old": "    del ccf_dict[root_node_name]\n", "new": "    ccf_dict.pop(root_node_name)\n"},
     {"name": "benign-rows-from-child-shape", "kind": "benign", "file": _M, "old": "        for i in range(num_dims):\n            choice, log_D[i, :]", "new": "        for i in range(child_log_R.shape[0]):\n            choice, log_D[i, :]"},
